@@ -460,7 +460,13 @@ impl AssemblyCode {
                                     }
                                 }
                                 AsmMnemonic::BEQ => {
-                                    if *r != i1.dasm_operand && !i2.protected {
+                                    // Different texts are different values for numbers only
+                                    // (#<tab may well be 16)
+                                    if *r != i1.dasm_operand
+                                        && r[1..].parse::<i32>().is_ok()
+                                        && i1.dasm_operand[1..].parse::<i32>().is_ok()
+                                        && !i2.protected
+                                    {
                                         remove_both = true;
                                     }
                                 }
@@ -481,7 +487,13 @@ impl AssemblyCode {
                                     }
                                 }
                                 AsmMnemonic::BEQ => {
-                                    if *r != i1.dasm_operand && !i2.protected {
+                                    // Different texts are different values for numbers only
+                                    // (#<tab may well be 16)
+                                    if *r != i1.dasm_operand
+                                        && r[1..].parse::<i32>().is_ok()
+                                        && i1.dasm_operand[1..].parse::<i32>().is_ok()
+                                        && !i2.protected
+                                    {
                                         remove_both = true;
                                     }
                                 }
@@ -502,7 +514,13 @@ impl AssemblyCode {
                                     }
                                 }
                                 AsmMnemonic::BEQ => {
-                                    if *r != i1.dasm_operand && !i2.protected {
+                                    // Different texts are different values for numbers only
+                                    // (#<tab may well be 16)
+                                    if *r != i1.dasm_operand
+                                        && r[1..].parse::<i32>().is_ok()
+                                        && i1.dasm_operand[1..].parse::<i32>().is_ok()
+                                        && !i2.protected
+                                    {
                                         remove_both = true;
                                     }
                                 }
